@@ -33,6 +33,7 @@ MAP = [
     ("a failing allocation in element copy assignment destroyed the contents twice", "C17,C06", "V3 elem, any allocator kind: new(cap 3); eb(count 1); eb(count 2); xr(0 <- v[0]); xr(1 <- v[1]); xca(1,0) with the 1st allocation failing: destructors run twice (first complete thorough run of C17)"),
     ("structured bindings of const, rvalue and copied elements were ill-formed", "C20", "probe cells 41-43 for every list and allocator kind: 'auto& [..] = const_element', 'const auto& [..] = element', 'auto&& [..] = std::move(element)', 'auto [..] = element' (side remark of the sub-agent that seeded C20-r3)"),
     ("move assignment from an unequal allocator into a moved-from vector wrote through a null block", "C09", "V1/NP pair: new(0,cap 2); mc(0,1); des(1); new(1,cap 2,arena 1); eb(1); ma(1,0): SEGV (six operations; side remark of the sub-agent that seeded C08-r4)"),
+    ("after a failed copy assignment the vector reported a capacity it no longer had", "C17", "V1 pair (any allocator kind): new(0,cap 0); new(1,cap 2); ca(0,1) with the 1st allocation failing, then clear() and capacity() emplace_backs: SEGV (address table gone, capacity() still 2); F1/PP likewise (block gone)"),
     ("emplace_back memcpy'd sources whose conversion", "C15", "bool <- u8 (stored byte 02), Conv <- int (converting constructor skipped), int <- Src (conversion operator skipped)"),
     ("the vector iterators were not default constructible", "C20,C11", "probe cell 'iterator default construction' for every list"),
     ("structured bindings of a ContiguousElement did not compile", "C20", "probe cell 'structured bindings of an element' for every list with 2 or 3 parameters"),
